@@ -403,6 +403,8 @@ func reportProperty(prog *Program, p, tier string, seed int, verif string, ctxs 
 	sort.Strings(fnNames)
 	violation := false
 	nviol := 0
+	nReplays := 0
+	var replaySpent time.Duration
 	var failing []string
 	replayDir := filepath.Join(verif, "replays")
 	if d := os.Getenv("VERIF_REPLAY_DIR"); d != "" {
@@ -428,11 +430,21 @@ func reportProperty(prog *Program, p, tier string, seed int, verif string, ctxs 
 			rec["solver_output"] = truncate(o.Model, 20000)
 			rec["clause"] = o.Detail
 			if o.Result == "sat" && os.Getenv("VERIF_NO_REPLAY") == "" {
-				if rr := tryReplay(prog, o, verif); rr != nil {
-					rec["replay"] = rr
-					if rr.Confirmed {
-						suffix = ""
+				// replaying means generating, compiling and running a Go test: a change that fails dozens of
+				// obligations must not keep the check busy for an hour, so only the first few refutations are
+				// replayed (the others keep their model in the replay file and are reported without a replay)
+				if nReplays < 4 && replaySpent < 6*time.Minute {
+					t1 := time.Now()
+					nReplays++
+					if rr := tryReplay(prog, o, verif); rr != nil {
+						rec["replay"] = rr
+						if rr.Confirmed {
+							suffix = ""
+						}
 					}
+					replaySpent += time.Since(t1)
+				} else {
+					rec["replay_skipped"] = "replay budget of this run used up (4 replays / 6 minutes); the model above is the solver's counterexample"
 				}
 			}
 		}
